@@ -457,3 +457,40 @@ def r6(cx):
     # Drop for Tree / CommitPipeline shut the pipeline down
     db = f.body("<CommitPipeline as Drop>::drop")
     cx.check(f.may_reach(db.id, "CommitPipeline::shutdown"), "dropping the pipeline shuts it down", "drop-no-shutdown", db.where())
+
+
+@rule("C17", "C17.R10", "a store that opens into an L0 stall makes progress: start-up schedules a level compaction unconditionally")
+def r10(cx):
+    """The L0 stall (`l0_files >= threshold`) is lifted only by a level compaction, and the level task is woken only by
+    (a) the memtable task after a successful flush and (b) Core::new.  A store can be opened with L0 already at the
+    threshold (final flush at close after the tasks stopped, lower thresholds on reopen): every commit then blocks in the
+    stall check, so no memtable ever rotates and (a) never fires.  (b) must therefore not depend on anything -- in
+    particular not on whether the WAL replay recovered something."""
+    f = cx.f
+    b = f.body("Core::new")
+    tm = sites(cx, b, ["TaskManager::new"], minimum=1)
+    wk = [c for c in b.calls if c.bb in b.live and f.call_may_reach(c, {"TaskManager::wake_up_level"}) or c.names & {"TaskManager::wake_up_level"}]
+    wk = [c for c in wk if c.bb in b.live]
+    if not cx.check(bool(wk), "Core::new wakes the level compaction task", "startup-no-level-wake", b.where(),
+                    "Core::new never wakes the level compaction task: a store opened with L0 at the stall threshold blocks every commit forever"):
+        return
+    mpt(cx, b, tm, wk, "every successful open passes the start-up level wake-up", to=ok_exits(b), key="startup-level-wake-conditional")
+    # (a): in the memtable task a successful flush is followed by the level notification
+    tb = f.body("TaskManager::new")
+    n = 0
+    for cb in f.closures_of(tb):
+        if cb.kind != "coroutine":
+            continue
+        fl = cb.calls_to("CompactionOperations::compact_memtable")
+        if not fl:
+            continue
+        n += 1
+        nts = [c for c in cb.calls if c.bb in cb.live and c.primary.endswith("Notify::notify_one")]
+        lv = []
+        for c in nts:
+            o = origin_of_operand(cb, c.args[0], through_calls="all")
+            if "level_notify" in " ".join(sorted(o.upvar_names | o.field_names())):
+                lv.append(c)
+        cx.check(bool(lv), "the memtable task notifies the level task", "flush-no-level-wake", cb.where(),
+                 "the memtable flush task never wakes the level compaction task: L0 grows to the stall threshold and nothing compacts it")
+    cx.floor("memtable task loops", n, 1)
